@@ -221,6 +221,18 @@ class RowArr:
     def any(self):
         raise Unsupported(".any() of a row-generic array")
 
+    def _toset(self):
+        """set(array): the image of the rows (scalar int rows)"""
+        from .heap import fresh_set
+
+        st = cur()
+        P = fresh_set(st, "image")
+        i, v = z3.Int("i!img"), z3.Int("v!img")
+        f = self.f
+        st.assume(z3.ForAll([i], z3.Implies(z3.And(i >= 0, i < z3num(self.n)), P.mem(z3num(f(SR(i)))))))
+        st.assume(z3.ForAll([v], z3.Implies(P.mem(v), z3.Exists([i], z3.And(i >= 0, i < z3num(self.n), z3num(f(SR(i))) == v)))))
+        return P
+
 
 class RowVec:
     """x[None, :] of a row-generic 1-D array: shape (1, n)"""
